@@ -327,10 +327,7 @@ func stringFunc(arg1 query) func(query, iterator) interface{} {
 // startwithFunc is a XPath functions starts-with(string, string).
 func startwithFunc(arg1, arg2 query) func(query, iterator) interface{} {
 	return func(_ query, t iterator) interface{} {
-		var (
-			m, n string
-			ok   bool
-		)
+		var m, n string
 		switch typ := functionArgs(arg1).Evaluate(t).(type) {
 		case string:
 			m = typ
@@ -342,8 +339,15 @@ func startwithFunc(arg1, arg2 query) func(query, iterator) interface{} {
 		default:
 			panic(errors.New("starts-with() function argument type must be string"))
 		}
-		n, ok = functionArgs(arg2).Evaluate(t).(string)
-		if !ok {
+		switch typ := functionArgs(arg2).Evaluate(t).(type) {
+		case string:
+			n = typ
+		case query:
+			// as for the first argument: the string-value of the first node, "" for an empty node-set
+			if node := typ.Select(t); node != nil {
+				n = node.Value()
+			}
+		default:
 			panic(errors.New("starts-with() function argument type must be string"))
 		}
 		return strings.HasPrefix(m, n)
@@ -353,10 +357,7 @@ func startwithFunc(arg1, arg2 query) func(query, iterator) interface{} {
 // endwithFunc is a XPath functions ends-with(string, string).
 func endwithFunc(arg1, arg2 query) func(query, iterator) interface{} {
 	return func(_ query, t iterator) interface{} {
-		var (
-			m, n string
-			ok   bool
-		)
+		var m, n string
 		switch typ := functionArgs(arg1).Evaluate(t).(type) {
 		case string:
 			m = typ
@@ -368,8 +369,15 @@ func endwithFunc(arg1, arg2 query) func(query, iterator) interface{} {
 		default:
 			panic(errors.New("ends-with() function argument type must be string"))
 		}
-		n, ok = functionArgs(arg2).Evaluate(t).(string)
-		if !ok {
+		switch typ := functionArgs(arg2).Evaluate(t).(type) {
+		case string:
+			n = typ
+		case query:
+			// as for the first argument: the string-value of the first node, "" for an empty node-set
+			if node := typ.Select(t); node != nil {
+				n = node.Value()
+			}
+		default:
 			panic(errors.New("ends-with() function argument type must be string"))
 		}
 		return strings.HasSuffix(m, n)
@@ -379,10 +387,7 @@ func endwithFunc(arg1, arg2 query) func(query, iterator) interface{} {
 // containsFunc is a XPath functions contains(string or @attr, string).
 func containsFunc(arg1, arg2 query) func(query, iterator) interface{} {
 	return func(_ query, t iterator) interface{} {
-		var (
-			m, n string
-			ok   bool
-		)
+		var m, n string
 		switch typ := functionArgs(arg1).Evaluate(t).(type) {
 		case string:
 			m = typ
@@ -395,8 +400,15 @@ func containsFunc(arg1, arg2 query) func(query, iterator) interface{} {
 			panic(errors.New("contains() function argument type must be string"))
 		}
 
-		n, ok = functionArgs(arg2).Evaluate(t).(string)
-		if !ok {
+		switch typ := functionArgs(arg2).Evaluate(t).(type) {
+		case string:
+			n = typ
+		case query:
+			// as for the first argument: the string-value of the first node, "" for an empty node-set
+			if node := typ.Select(t); node != nil {
+				n = node.Value()
+			}
+		default:
 			panic(errors.New("contains() function argument type must be string"))
 		}
 
@@ -666,7 +678,8 @@ func notFunc(arg1 query) func(query, iterator) interface{} {
 			node := v.Select(t)
 			return node == nil
 		default:
-			return false
+			// a number or a string: not(boolean(v))
+			return !asBool(t, v)
 		}
 	}
 }
